@@ -41,11 +41,14 @@ func TestMain(m *testing.M) { harness.Main(m) }
 
 // Parent has a belongs-to (Boss) and a has-many (Kids) of Child.
 type Parent struct {
-	ID     uint `gorm:"primaryKey"`
-	Tag    string
-	Name   string
-	Note   string
-	Age    int
+	ID   uint `gorm:"primaryKey;autoIncrement"`
+	Tag  string
+	Name string
+	Note string
+	Age  int
+	// a second column with a database-side default (an expression): together with the key there are
+	// two fields gorm writes only for the records that carry a value
+	Code   string `gorm:"default:(lower('AUTO'))"`
 	BossID *uint
 	Boss   *Child  `gorm:"foreignKey:BossID"`
 	Kids   []Child `gorm:"foreignKey:ParentID"`
@@ -149,8 +152,11 @@ const (
 	hAfterFind    = "AfterFind"
 )
 
-func (p *Parent) BeforeSave(tx *gorm.DB) error   { return p.hook(tx, hBeforeSave) }
-func (p *Parent) BeforeCreate(tx *gorm.DB) error { return p.hook(tx, hBeforeCreate) }
+func (p *Parent) BeforeSave(tx *gorm.DB) error { return p.hook(tx, hBeforeSave) }
+func (p *Parent) BeforeCreate(tx *gorm.DB) error {
+	cur.parentBeforeCreate(p)
+	return p.hook(tx, hBeforeCreate)
+}
 func (p *Parent) AfterCreate(tx *gorm.DB) error  { return p.hook(tx, hAfterCreate) }
 func (p *Parent) BeforeUpdate(tx *gorm.DB) error { return p.hook(tx, hBeforeUpdate) }
 func (p *Parent) AfterUpdate(tx *gorm.DB) error  { return p.hook(tx, hAfterUpdate) }
@@ -622,6 +628,20 @@ func (r *runState) hook(tx *gorm.DB, model, name string, ptr unsafe.Pointer, tag
 	return nil
 }
 
+// parentBeforeCreate: under the "hook" code plan the before-hook gives every record its Code and
+// takes over a key for the records that have one assigned (an import), like a hook of an application would.
+func (r *runState) parentBeforeCreate(p *Parent) {
+	if r == nil || r.c.CodePlan != "hook" {
+		return
+	}
+	p.Code = "h-" + p.Tag
+	for _, rs := range r.c.Recs {
+		if rs.Tag == p.Tag && rs.HookID != 0 && p.ID == 0 {
+			p.ID = rs.HookID
+		}
+	}
+}
+
 func (r *runState) isSetter(hook string) bool {
 	if r.c.SetIn == hBeforeSave {
 		return hook == hBeforeSave
@@ -642,9 +662,11 @@ type RecSpec struct {
 	Name string
 	Note string
 	Age  int
+	Code string // Parent.Code as the caller sets it ("": not set)
 	Boss *KidSpec
 	Kids []KidSpec
 	// Parent only: second belongs-to, composite-key has-many
+	HookID  uint // under CodePlan "hook": the key BeforeCreate gives this record (0: none, the database assigns one)
 	Mentor  *KidSpec
 	Items   []KidSpec
 	Desk    *KidSpec  // has-one
@@ -687,6 +709,7 @@ const (
 )
 
 type Case struct {
+	CodePlan    string // Parent.Code (database default: an expression): "" left to the database | "caller" set by the caller | "hook" set by BeforeCreate (which also assigns RecSpec.HookID)
 	JoinModel   bool   // Parent.Friends goes through the caller's join model FriendLink (db.SetupJoinTable), which has create/save hooks
 	Armed       bool   // PrepareStmt: the SQL texts the hooks will run were prepared on the pool (outside any transaction) before
 	Share       string // one in-memory child reachable through several relations: "" | "mentor=boss" | "friends=seen" | "friends=seen+new" | "boss-across-parents"
@@ -732,6 +755,9 @@ func (k KidSpec) String() string { return k.Tag }
 
 func (r RecSpec) String() string {
 	s := fmt.Sprintf("%s#%d", r.Tag, r.ID)
+	if r.HookID != 0 {
+		s += fmt.Sprintf("(hook-key %d)", r.HookID)
+	}
 	if r.Boss != nil {
 		s += "+boss"
 	}
@@ -761,6 +787,9 @@ func (c Case) String() string {
 	}
 	if c.Share != "" {
 		b.WriteString(" shared-child:" + c.Share)
+	}
+	if c.CodePlan != "" {
+		b.WriteString(" code-by-" + c.CodePlan)
 	}
 	if c.JoinModel {
 		b.WriteString(" hooked-join-model")
@@ -993,6 +1022,7 @@ type pRow struct {
 	BossID   *uint
 	MentorID *uint
 	Deleted  bool // soft-deleted
+	Code     string
 }
 
 type iRow struct {
@@ -1044,6 +1074,9 @@ func (t tables) String() string {
 	b.WriteString(t.Main + ":")
 	for _, r := range t.P {
 		fmt.Fprintf(&b, " {%d %s %q %q %d boss=%s mentor=%s", r.ID, r.Tag, r.Name, r.Note, r.Age, up(r.BossID), up(r.MentorID))
+		if r.Code != "" {
+			b.WriteString(" code=" + r.Code)
+		}
 		if r.Deleted {
 			b.WriteString(" DELETED")
 		}
@@ -1080,11 +1113,11 @@ func dump(d *testdb.DB, c *Case) (tables, string) {
 	d.Rec.Pause()
 	saved := cur
 	cur = nil
-	boss := "NULL AS boss_id, NULL AS mentor_id, 0 AS deleted"
+	boss := "NULL AS boss_id, NULL AS mentor_id, 0 AS deleted, '' AS code"
 	if t.Main == "parents" {
-		boss = "boss_id, mentor_id, 0 AS deleted"
+		boss = "boss_id, mentor_id, 0 AS deleted, COALESCE(code, '') AS code"
 	} else if t.Main == "softs" {
-		boss = "NULL AS boss_id, NULL AS mentor_id, deleted_at IS NOT NULL AS deleted"
+		boss = "NULL AS boss_id, NULL AS mentor_id, deleted_at IS NOT NULL AS deleted, '' AS code"
 	}
 	e6 := d.Raw("SELECT parent_id, line_no, tag, name FROM items ORDER BY parent_id, line_no, tag").Scan(&t.I).Error
 	e1 := d.Raw("SELECT id, tag, name, note, age, " + boss + " FROM " + t.Main + " ORDER BY id").Scan(&t.P).Error
@@ -1125,7 +1158,7 @@ type memory struct {
 // buildParent: pointer-typed children (Boss, Mentor, Friends) with equal tags are ONE in-memory
 // object reachable through several relations (pool is shared by all parents of the argument).
 func buildParent(r RecSpec, pool map[string]*Child) Parent {
-	p := Parent{ID: r.ID, Tag: r.Tag, Name: r.Name, Note: r.Note, Age: r.Age}
+	p := Parent{ID: r.ID, Tag: r.Tag, Name: r.Name, Note: r.Note, Age: r.Age, Code: r.Code}
 	obj := func(k KidSpec) *Child {
 		if ch, ok := pool[k.Tag]; ok {
 			return ch
@@ -2271,6 +2304,17 @@ func checkStored(c *Case, ex expectation, res runResult) []string {
 			if r.ID != 0 && row.ID != r.ID {
 				bad("record %s: stored under key %d, the record has key %d", r.Tag, row.ID, r.ID)
 			}
+			if c.CodePlan == "hook" && c.hooksRun() {
+				if r.ID == 0 && r.HookID != 0 && row.ID != r.HookID {
+					bad("record %s: the before-hook set the key %d but the row is stored under key %d", r.Tag, r.HookID, row.ID)
+				}
+				if row.Code != "h-"+r.Tag {
+					bad("record %s: the before-hook set Code to %q but the row holds %q", r.Tag, "h-"+r.Tag, row.Code)
+				}
+			} else if r.Code != "" && row.Code != r.Code && (r.ID == 0 || !seedHas(sc, r.ID) || (c.Op == opSave && c.Shape == shPtr)) {
+				// (an upsert's conflict update leaves a database-defaulted column of the existing row alone: UpdateAll's documented rule)
+				bad("record %s: row holds code %q, the record had %q", r.Tag, row.Code, r.Code)
+			}
 			if r.ID == 0 || !seedHas(sc, r.ID) {
 				newRows++
 			}
@@ -2590,6 +2634,23 @@ func caseClasses(c *Case) []string {
 	}
 	if c.Share != "" {
 		cl = append(cl, "shared-child:"+c.Share)
+	}
+	if c.CodePlan != "" {
+		cl = append(cl, "db-default-column:set-by-"+c.CodePlan)
+		first, later := false, false
+		for i, r := range c.Recs {
+			if r.HookID != 0 && i == 0 {
+				first = true
+			}
+			if r.HookID != 0 && i > 0 {
+				later = true
+			}
+		}
+		if later && !first {
+			cl = append(cl, "hook-assigns-key:not-to-the-first-record")
+		} else if later || first {
+			cl = append(cl, "hook-assigns-key")
+		}
 	}
 	if c.JoinModel {
 		cl = append(cl, "hooked-join-model")
@@ -2975,6 +3036,27 @@ func drawCase(t *rapid.T) *Case {
 		if rich && isParent {
 			c.Share = drawShare(t, c)
 		}
+		if isParent && !isMap {
+			// the column with a database default: left alone, set by the caller for every record (a multi-row
+			// insert cannot default it for some rows only on SQLite), or set by BeforeCreate
+			plans := []string{"", "", "caller"}
+			if c.Op != opSave && c.Conflict == "" && c.hooksRun() {
+				plans = append(plans, "hook", "hook")
+			}
+			c.CodePlan = rapid.SampledFrom(plans).Draw(t, "code-plan")
+			for i := range c.Recs {
+				switch c.CodePlan {
+				case "caller":
+					c.Recs[i].Code = "c-" + c.Recs[i].Tag
+				case "hook":
+					// the hook takes over a key for some records only (batches mixing preset and zero keys
+					// need RETURNING, see above)
+					if (!c.NoReturning || n == 1) && rapid.IntRange(0, 2).Draw(t, c.Recs[i].Tag+".hook-key") == 0 {
+						c.Recs[i].HookID = uint(700 + i)
+					}
+				}
+			}
+		}
 		if c.Op == opCreateBatches {
 			c.Batch = rapid.IntRange(1, n+1).Draw(t, "batch")
 		}
@@ -3212,6 +3294,7 @@ const rule = "C13: rapid draws a top-level model type - Parent (all nine hooks; 
 	"outside or inside a caller transaction (Begin, Transaction closure, nested Transaction = save point), from a plain / WithContext / Session{Initialized} / Session{NewDB} / Debug handle, after a sibling SkipHooks session or a column update on the same reusable handle; " +
 	"the many2many may go through a join model of the caller (SetupJoinTable) with its own create/save hooks; under PrepareStmt the hooks' SQL texts may have been prepared on the pool before; " +
 	"one in-memory child may be reachable through several relations of the operation (same pointer as two belongs-to, or as a belongs-to and the many2many slice: still one set of hooks); " +
+	"Parent has two database-defaulted columns (auto-increment key, default:(expr) Code): Code is left to the database, set by the caller, or set by BeforeCreate, which may also assign keys to some records only; " +
 	"a before-hook of Parent may set Name directly or through Statement.SetColumn; hooks of a write may also store a side row through their handle (Exec or a nested gorm Create). " +
 	"The operation runs fault-free once (H hook invocations; event-log grammar, transaction identity and stored values checked), then EVERY h<H is run with the h-th invocation returning an error, each from an identical fresh database " +
 	"- the failing hook returns its own sentinel, gorm.ErrRecordNotFound bare or wrapped, context.Canceled, sql.ErrNoRows, sql.ErrTxDone, gorm.ErrInvalidTransaction or driver.ErrBadConn (every value for reads, one drawn value per write case) - " +
